@@ -472,36 +472,23 @@ Proof.
 Qed.
 
 Lemma float_from_bigint_exact w z s :
-  (w = F32 -> rne_mag 24 (Z.abs z) = Z.abs z /\ Z.abs z < 2 ^ 128) ->
   float_from_bigint w z = Stored s -> mval_eq (stored_val s) (MFin z 0 0).
 Proof.
-  intro Hw. unfold float_from_bigint. cbv zeta.
+  unfold float_from_bigint. cbv zeta.
   destruct (2 ^ 1024 <=? rne_mag 53 (Z.abs z)); [discriminate|].
-  destruct (Z.eqb_spec (rne_mag 53 (Z.abs z)) (Z.abs z)) as [E|E]; [|discriminate].
-  intro H; inversion H; subst s; clear H. rewrite E. cbn [stored_val].
-  destruct w; cbn [store_float]; cbv zeta.
-  - destruct (Hw eq_refl) as [H24 Hlt]. rewrite H24.
-    destruct (Z.leb_spec (2 ^ 128) (Z.abs z)); [lia|].
-    cbn [fdec_val]. apply mval_eq_int, sgn_abs.
-  - cbn [fdec_val]. apply mval_eq_int, sgn_abs.
+  destruct (rne_mag 53 (Z.abs z) =? Z.abs z); [|discriminate].
+  destruct (store_float w (z <? 0) (rne_mag 53 (Z.abs z))) as [|sg|sg n' e']; try discriminate.
+  destruct (Z.eqb_spec (sgn sg n') z) as [E|E]; [|discriminate].
+  intro H; inversion H. cbn [stored_val fdec_val]. apply mval_eq_int. exact E.
 Qed.
 
 (* ---- the builders ---- *)
-
-Definition call_excluded (c : call) (t : dst) : bool :=
-  match c, t with
-  | CUint u, TBigInt => (p63 <=? u) && Z.odd u
-  | CDec (Dec true _ _), TUint _ => true
-  | CBigDec d, TUint _ => match apd_int64 d with Some i => i <? 0 | None => false end
-  | CBigDec (Dec true c _), TBigInt => negb (c =? 0)
-  | CBigInt z, TFloat F32 => negb (rne_mag 24 (Z.abs z) =? Z.abs z) || (2 ^ 128 <=? Z.abs z)
-  | _, _ => false
-  end.
 
 Definition wf_call (c : call) : Prop :=
   match c with
   | CUint u => 0 <= u
   | CDec (Dec _ c _) => 0 <= c <= p63
+  | CBigDec (Dec _ c _) => 0 <= c
   | _ => True
   end.
 
@@ -515,17 +502,22 @@ Proof. destruct f; cbn; intro H; inversion H; reflexivity. Qed.
 Lemma bfl_val_refl b : mval_eq (bfl_val b) (bfl_val b).
 Proof. destruct b; reflexivity. Qed.
 
-Lemma uint_to_bigint_exact u : (p63 <=? u) && Z.odd u = false -> uint_to_bigint u = u.
+Lemma uint_to_bigint_exact u : uint_to_bigint u = u.
+Proof. unfold uint_to_bigint. destruct (u <=? p63 - 1); reflexivity. Qed.
+
+Lemma dec_int_value_nonneg c e z : 0 <= c -> dec_int_value false c e = Some z -> 0 <= z.
 Proof.
-  unfold uint_to_bigint. intro H. destruct (Z.leb_spec u (p63 - 1)) as [Hl|Hl]; [reflexivity|].
-  apply andb_false_iff in H as [H|H].
-  - apply Z.leb_gt in H. lia.
-  - rewrite (Z.div_mod u 2) at 2 by lia. rewrite Zmod_odd, H. lia.
+  intro Hc. unfold dec_int_value. cbn [sgn]. destruct (Z.leb_spec 0 e) as [He|He].
+  - intro H; inversion H. apply Z.mul_nonneg_nonneg; [exact Hc | apply Z.pow_nonneg; lia].
+  - cbv zeta. destruct (c mod 10 ^ (- e) =? 0); [|discriminate]. intro H; inversion H.
+    apply Z.div_pos; [exact Hc | apply Z.pow_pos_nonneg; lia].
 Qed.
 
-Lemma call_excluded_bigdec_uint d w :
-  call_excluded (CBigDec d) (TUint w) = match apd_int64 d with Some i => i <? 0 | None => false end.
-Proof. destruct d as [[] ? ?| |]; reflexivity. Qed.
+
+Lemma dec_int_value_zero neg e z : dec_int_value neg 0 e = Some z -> z = 0.
+Proof.
+  unfold dec_int_value. destruct (0 <=? e); destruct neg; cbn; intro H; inversion H; reflexivity.
+Qed.
 
 Section Build.
   Variables (ext_df ext_bdf : dec -> option bfl) (max2 max10 : Z).
@@ -544,25 +536,48 @@ Section Build.
     - intro H. apply int_from_opt_exact in H as [i [Hi ->]]. apply apd_int64_exact in Hi. tauto.
   Qed.
 
+  Lemma uint_from_dec_exact w d v :
+    wf_call (CDec d) -> uint_from_dec w d = Stored v -> mval_eq (stored_val v) (dec_val d).
+  Proof.
+    intros Hwf. destruct d as [neg c e|s|s]; cbn [uint_from_dec]; try discriminate.
+    cbn [wf_call] in Hwf.
+    destruct neg.
+    - (* a negative sign: either the special negative zero or a negative coefficient *)
+      destruct (Z.eq_dec c 0) as [->|Hc].
+      + cbn. discriminate.
+      + assert (dec_special (Dec true c e) = false) as Hs by (destruct c; try reflexivity; congruence).
+        rewrite Hs. cbn [negb andb sgn].
+        destruct (Z.ltb_spec (- c) 0); [discriminate | lia].
+    - destruct (negb (dec_special (Dec false c e)) && (sgn false c <? 0)); [discriminate|].
+      intro H. apply uint_from_opt_exact in H as [u [Hu ->]].
+      apply dfloat_uint_exact; [exact Hwf | exact Hu].
+  Qed.
+
   Lemma build_uint_exact w c v :
-    wf_call c -> call_excluded c (TUint w) = false ->
+    wf_call c ->
     (forall d, c = CBigDec d -> ext_exact ext_bdf d) ->
     build' c (TUint w) = Stored v -> mval_eq (stored_val v) (call_val c).
   Proof.
-    intros Hwf Hex Hext. destruct c as [i|u|z|f|b|d|d]; cbn [build call_val].
+    intros Hwf Hext. destruct c as [i|u|z|f|b|d|d]; cbn [build call_val].
     - destruct (i <? 0); [discriminate|]. intro H. apply uint_from_u64_exact in H. subst v. reflexivity.
     - intro H. apply uint_from_u64_exact in H. subst v. reflexivity.
     - destruct (in_u64 z); [|discriminate]. intro H. apply uint_from_u64_exact in H. subst v. reflexivity.
     - intro H. apply uint_from_float_exact in H as [u [-> Hu]]. exact Hu.
     - intro H. apply uint_from_opt_exact in H as [u [Hu ->]]. apply bigfloat_to_uint_exact, Hu.
-    - intro H. apply uint_from_opt_exact in H as [u [Hu ->]].
-      destruct d as [neg c e|s|s]; try discriminate.
-      destruct neg; [cbn in Hex; discriminate|].
-      apply dfloat_uint_exact; [exact Hwf | exact Hu].
+    - apply uint_from_dec_exact. exact Hwf.
     - intro H. apply uint_from_opt_exact in H as [u [Hu ->]]. cbn [stored_val].
-      unfold bigdec_to_uint in Hu. rewrite call_excluded_bigdec_uint in Hex.
+      unfold bigdec_to_uint in Hu.
+      destruct (bigdec_negative_nonzero d) eqn:Hneg; [discriminate|].
       destruct (apd_int64 d) as [i|] eqn:Hi.
-      + apply apd_int64_exact in Hi as [Hv Hr]. apply Z.ltb_ge in Hex.
+      + assert (0 <= i) as Hi0.
+        { destruct d as [neg c e|s|s]; try discriminate. cbn [apd_int64] in Hi. cbn [wf_call] in Hwf.
+          destruct (dec_int_value neg c e) as [z|] eqn:Hz; [|discriminate].
+          destruct (in_i64 z); [|discriminate]. inversion Hi; subst z.
+          cbn [bigdec_negative_nonzero] in Hneg. destruct neg.
+          - cbn [andb] in Hneg. apply negb_false_iff, Z.eqb_eq in Hneg. subst c.
+            apply dec_int_value_zero in Hz. lia.
+          - eapply dec_int_value_nonneg; eauto. }
+        apply apd_int64_exact in Hi as [Hv Hr].
         inversion Hu. rewrite Z.mod_small by (unfold p63, p64 in *; lia). exact Hv.
       + unfold bigdec_to_bf in Hu. destruct d as [neg c e|s|s]; try discriminate.
         destruct (ext_bdf (Dec neg c e)) as [b|] eqn:Hb; [|discriminate].
@@ -570,25 +585,23 @@ Section Build.
   Qed.
 
   Lemma build_float_exact w c v :
-    wf_call c -> call_excluded c (TFloat w) = false ->
+    wf_call c ->
     build' c (TFloat w) = Stored v -> mval_eq (stored_val v) (call_val c).
   Proof.
-    intros Hwf Hex. destruct c as [i|u|z|f|b|d|d]; cbn [build call_val]; try discriminate.
+    intros Hwf. destruct c as [i|u|z|f|b|d|d]; cbn [build call_val]; try discriminate.
     - apply float_from_int_exact.
     - apply float_from_uint_exact. exact Hwf.
-    - apply float_from_bigint_exact. intros ->. cbn [call_excluded] in Hex.
-      apply orb_false_iff in Hex as [H1 H2]. apply negb_false_iff, Z.eqb_eq in H1. apply Z.leb_gt in H2. tauto.
+    - apply float_from_bigint_exact.
     - destruct f as [|s|s m e]; try discriminate. destruct s; try discriminate. destruct m; try discriminate.
       intro H; inversion H. cbn. lia.
   Qed.
 
   Lemma build_bigint_exact c v :
-    call_excluded c TBigInt = false ->
     build' c TBigInt = Stored v -> mval_eq (stored_val v) (call_val c).
   Proof.
-    intros Hex. destruct c as [i|u|z|f|b|d|d]; cbn [build call_val].
+    destruct c as [i|u|z|f|b|d|d]; cbn [build call_val].
     - intro H; inversion H. reflexivity.
-    - intro H; inversion H. cbn [stored_val]. cbn [call_excluded] in Hex. rewrite uint_to_bigint_exact by exact Hex. reflexivity.
+    - intro H; inversion H. cbn [stored_val]. rewrite uint_to_bigint_exact. reflexivity.
     - intro H; inversion H. reflexivity.
     - unfold bigint_from_float. destruct (new_float f) as [b|] eqn:Hb; [|discriminate].
       unfold bigint_from_opt. destruct (bigfloat_to_bigint max2 b) as [z|] eqn:Hz; [|discriminate].
@@ -602,8 +615,7 @@ Section Build.
       unfold bigdec_to_bigint in Hz. destruct (Z.ltb_spec e 0); [discriminate|].
       destruct (max10 <? e); [discriminate|]. inversion Hz.
       cbn [dec_val]. apply mval_eq_int_dec. destruct (Z.leb_spec 0 e); [|lia].
-      destruct neg; cbn [sgn]; [|reflexivity].
-      cbn [call_excluded] in Hex. apply negb_false_iff, Z.eqb_eq in Hex. subst c. reflexivity.
+      symmetry. apply sgn_mul.
   Qed.
 
   Lemma build_bigfloat_exact c v :
@@ -633,12 +645,12 @@ Section Build.
   Qed.
 
   Lemma build_exact c t v :
-    wf_call c -> call_excluded c t = false ->
+    wf_call c ->
     (forall d, c = CDec d -> ext_exact ext_df d) ->
     (forall d, c = CBigDec d -> ext_exact ext_bdf d) ->
     build' c t = Stored v -> mval_eq (stored_val v) (call_val c).
   Proof.
-    intros Hwf Hex Hdf Hbdf. destruct t as [w|w|w| |].
+    intros Hwf Hdf Hbdf. destruct t as [w|w|w| |].
     - apply build_int_exact; assumption.
     - apply build_uint_exact; assumption.
     - apply build_float_exact; assumption.
@@ -650,17 +662,6 @@ End Build.
 (* ------------------------------------------------------------------ *)
 (* events                                                              *)
 
-Lemma excluded_neg n t : excluded (SNeg n) t = (p63 <=? n).
-Proof. destruct t; reflexivity. Qed.
-
-Lemma route_excluded s t : excluded s t = false -> call_excluded (route s) t = false.
-Proof.
-  intro Hex. destruct s as [n|n|z|z|b|sg|b|d|d]; cbn [route]; try exact Hex.
-  rewrite excluded_neg in Hex. apply Z.leb_gt in Hex.
-  destruct (n =? 0); [destruct t; reflexivity|].
-  destruct (Z.leb_spec n (p63 - 1)); [destruct t; reflexivity | lia].
-Qed.
-
 Lemma route_wf s : wf_src s = true -> wf_call (route s).
 Proof.
   destruct s as [n|n|z|z|b|sg|b|d|d]; cbn [route wf_src wf_call]; intro H; try exact I.
@@ -668,17 +669,20 @@ Proof.
   - destruct (n =? 0); [exact I|]. destruct (n <=? p63 - 1); exact I.
   - destruct d as [neg c e|s|s]; try exact I. cbn [wf_dec] in H.
     apply andb_true_iff in H as [H1 H2]. apply Z.leb_le in H1, H2. lia.
+  - destruct d as [neg c e|s|s]; try exact I. cbn [wf_dec] in H. apply Z.leb_le in H. exact H.
 Qed.
 
+(* Whatever is stored is the value of the event, provided the decimal -> binary parse returned
+   the exact value whenever it was consulted. *)
 Theorem conv_exact ext_df ext_bdf max2 max10 s t v :
-  wf_src s = true -> in_scope s t = true -> excluded s t = false ->
+  wf_src s = true -> in_scope s t = true ->
   (forall d, s = SDec d -> ext_exact ext_df d) ->
   (forall d, s = SBigDec d -> ext_exact ext_bdf d) ->
   conv ext_df ext_bdf max2 max10 s t = Stored v ->
   mval_eq (stored_val v) (src_val s).
 Proof.
-  intros Hwf _ Hex Hdf Hbdf. unfold conv.
-  pose proof (route_wf s Hwf) as Hwc. pose proof (route_excluded s t Hex) as Hec.
+  intros Hwf _ Hdf Hbdf. unfold conv.
+  pose proof (route_wf s Hwf) as Hwc.
   assert (forall d, route s = CDec d -> ext_exact ext_df d) as Hdf'.
   { intros d Hd. apply Hdf. destruct s; cbn [route] in Hd; try discriminate.
     - destruct (_ =? 0); [discriminate|]. destruct (_ <=? _); discriminate.
@@ -687,97 +691,130 @@ Proof.
   { intros d Hd. apply Hbdf. destruct s; cbn [route] in Hd; try discriminate.
     - destruct (_ =? 0); [discriminate|]. destruct (_ <=? _); discriminate.
     - congruence. }
-  intro H. pose proof (build_exact _ _ _ _ _ _ _ Hwc Hec Hdf' Hbdf' H) as HB. clear H Hdf' Hbdf' Hwc Hec.
+  intro H. pose proof (build_exact _ _ _ _ _ _ _ Hwc Hdf' Hbdf' H) as HB. clear H Hdf' Hbdf' Hwc.
   destruct s as [n|n|z|z|b|sg|b|d|d]; cbn [route] in HB; try exact HB.
   (* SNeg *)
-  rewrite excluded_neg in Hex. apply Z.leb_gt in Hex. cbn [src_val].
+  cbn [src_val].
   destruct (Z.eqb_spec n 0) as [E|E].
   - subst n. eapply mval_eq_trans; [exact HB|]. cbn. lia.
-  - destruct (Z.leb_spec n (p63 - 1)); [exact HB | lia].
+  - destruct (n <=? p63 - 1); exact HB.
 Qed.
 
-(* Integer destinations: no defect class reaches them; the abstract parse is never consulted. *)
+(* the (event, destination) pairs on which the builder calls the decimal -> binary parse *)
+Definition consults_parse (s : src) (t : dst) : bool :=
+  match s, t with
+  | SDec _, TBigFloat | SBigDec _, TBigFloat | SBigDec _, TUint _ => true
+  | _, _ => false
+  end.
+
+Lemma conv_no_parse ext_df ext_bdf max2 max10 s t :
+  consults_parse s t = false ->
+  conv ext_df ext_bdf max2 max10 s t = conv (fun _ => None) (fun _ => None) max2 max10 s t.
+Proof.
+  intro Hcp. unfold conv.
+  destruct s as [n|n|z|z|b|sg|b|d|d], t as [w|w|w| |]; try reflexivity; try discriminate Hcp.
+  all: cbn [route]; destruct (_ =? 0); [reflexivity|]; destruct (_ <=? _); reflexivity.
+Qed.
+
+(* Everywhere else the result does not depend on the parse and is exact, unconditionally. *)
+Theorem conv_exact_no_parse ext_df ext_bdf max2 max10 s t v :
+  wf_src s = true -> in_scope s t = true -> consults_parse s t = false ->
+  conv ext_df ext_bdf max2 max10 s t = Stored v ->
+  mval_eq (stored_val v) (src_val s).
+Proof.
+  intros Hwf Hsc Hcp H. rewrite conv_no_parse in H by exact Hcp.
+  revert H. apply conv_exact; try assumption.
+  - intros d _ b Hb. discriminate.
+  - intros d _ b Hb. discriminate.
+Qed.
+
 Theorem conv_exact_int ext_df ext_bdf max2 max10 s w v :
   wf_src s = true ->
   conv ext_df ext_bdf max2 max10 s (TInt w) = Stored v ->
   mval_eq (stored_val v) (src_val s).
 Proof.
-  intros Hwf. unfold conv. pose proof (route_wf s Hwf) as Hwc.
-  intro H. pose proof (build_int_exact _ _ _ _ _ _ _ Hwc H) as HB.
-  destruct s as [n|n|z|z|b|sg|b|d|d]; cbn [route] in HB, H; try exact HB.
-  cbn [src_val].
-  destruct (Z.eqb_spec n 0) as [E|E].
-  - subst n. eapply mval_eq_trans; [exact HB|]. cbn. lia.
-  - destruct (Z.leb_spec n (p63 - 1)) as [Hl|Hl]; [exact HB|].
-    exfalso. cbn [build] in H.
-    assert (in_i64 n = false) as Hin.
-    { destruct (in_i64 n) eqn:Hi; [|reflexivity]. apply in_i64_spec in Hi. lia. }
-    rewrite Hin in H. discriminate.
+  intros Hwf. apply conv_exact_no_parse; [exact Hwf | reflexivity | destruct s; reflexivity].
 Qed.
 
-Definition src_is_decimal (s : src) : bool := match s with SDec _ | SBigDec _ => true | _ => false end.
-
-(* Sources that are not decimal floats never reach the abstract parse. *)
-Theorem conv_exact_nondecimal ext_df ext_bdf max2 max10 s t v :
-  wf_src s = true -> in_scope s t = true -> excluded s t = false -> src_is_decimal s = false ->
-  conv ext_df ext_bdf max2 max10 s t = Stored v ->
+Theorem conv_exact_bigint ext_df ext_bdf max2 max10 s v :
+  wf_src s = true ->
+  conv ext_df ext_bdf max2 max10 s TBigInt = Stored v ->
   mval_eq (stored_val v) (src_val s).
 Proof.
-  intros Hwf Hsc Hex Hnd. apply conv_exact; try assumption.
-  - intros d ->. discriminate.
-  - intros d ->. discriminate.
+  intros Hwf. apply conv_exact_no_parse; [exact Hwf | reflexivity | destruct s; reflexivity].
+Qed.
+
+Theorem conv_exact_float ext_df ext_bdf max2 max10 s w v :
+  wf_src s = true -> src_is_integer_form s = true ->
+  conv ext_df ext_bdf max2 max10 s (TFloat w) = Stored v ->
+  mval_eq (stored_val v) (src_val s).
+Proof.
+  intros Hwf Hint. apply conv_exact_no_parse; [exact Hwf | exact Hint | destruct s; reflexivity].
 Qed.
 
 (* ------------------------------------------------------------------ *)
-(* witnesses of the defect classes (independent of the abstract parse)  *)
+(* what remains false: the rounding parse                               *)
 
 Definition violates (ext_df ext_bdf : dec -> option bfl) (s : src) (t : dst) : Prop :=
   exists v, wf_src s = true /\ in_scope s t = true /\
             conv ext_df ext_bdf 166 50 s t = Stored v /\ ~ mval_eq (stored_val v) (src_val s).
 
-Ltac witness x := exists x; repeat split; try reflexivity; vm_compute; let HH := fresh in (intro HH; discriminate HH).
-
-Lemma negint_sign_lost_uint ext_df ext_bdf : violates ext_df ext_bdf (SNeg p63) (TUint I64).
-Proof. witness (StUint p63). Qed.
-Lemma negint_sign_lost_bigint ext_df ext_bdf : violates ext_df ext_bdf (SNeg (p63 + 5)) TBigInt.
-Proof. witness (StBigInt (p63 + 5)). Qed.
-Lemma negint_sign_lost_bigfloat ext_df ext_bdf : violates ext_df ext_bdf (SNeg p63) TBigFloat.
-Proof. witness (StBigFloat (BF false p63 0 64)). Qed.
-Lemma negint_sign_lost_float ext_df ext_bdf : violates ext_df ext_bdf (SNeg p63) (TFloat F64).
-Proof. witness (StFloat (FFin false p63 0)). Qed.
-Lemma posint_low_bit_lost ext_df ext_bdf : violates ext_df ext_bdf (SPos (p63 + 1)) TBigInt.
-Proof. witness (StBigInt p63). Qed.
-Lemma decimal_negative_into_uint ext_df ext_bdf : violates ext_df ext_bdf (SDec (Dec true 5 0)) (TUint I64).
-Proof. witness (StUint 18446744073709551611). Qed.
-Lemma bigdecimal_negative_into_uint ext_df ext_bdf : violates ext_df ext_bdf (SBigDec (Dec true 5 0)) (TUint I64).
-Proof. witness (StUint 18446744073709551611). Qed.
-Lemma bigdecimal_sign_lost_bigint ext_df ext_bdf : violates ext_df ext_bdf (SBigDec (Dec true 5 0)) TBigInt.
-Proof. witness (StBigInt 5). Qed.
-Lemma bigint_rounded_float32 ext_df ext_bdf : violates ext_df ext_bdf (SBigInt 16777217) (TFloat F32).
-Proof. witness (StFloat (FFin false 16777216 0)). Qed.
-Lemma bigint_overflows_float32 ext_df ext_bdf : violates ext_df ext_bdf (SBigInt (2 ^ 128)) (TFloat F32).
-Proof. exists (StFloat (FInf false)); repeat split; try reflexivity. vm_compute. tauto. Qed.
-
-(* the rounding parse: if the library's parse of 1e19 at 4 bits is the correctly rounded one
-   (it is: ParseCase of the correspondence run), 1e19 lands in a uint64 as 10376293541461622784 *)
+(* if the library's parse of 1e19 at 4 bits is the correctly rounded one (it is: ParseCase of the
+   correspondence run), 1e19 lands in a uint64 as 10376293541461622784 *)
 Lemma bigdecimal_rounded_into_uint ext_df ext_bdf :
   ext_bdf (Dec false 1 19) = parse_int_dec (bigdec_prec (Dec false 1 19)) (Dec false 1 19) ->
   violates ext_df ext_bdf (SBigDec (Dec false 1 19)) (TUint I64).
 Proof.
   intro Hp. exists (StUint 10376293541461622784). repeat split; try reflexivity.
-  - unfold conv. cbn [route build]. unfold bigdec_to_uint.
+  - unfold conv. cbn [route build]. unfold bigdec_to_uint. cbn [bigdec_negative_nonzero andb].
     change (apd_int64 (Dec false 1 19)) with (@None Z). cbn [bigdec_to_bf]. rewrite Hp. vm_compute. reflexivity.
-  - vm_compute. intro HH; discriminate HH.
+  - vm_compute. let HH := fresh in (intro HH; discriminate HH).
 Qed.
 
-(* the property as stated fails for every pair of parse functions *)
+(* no power of two is a multiple of five *)
+Lemma pow2_mod5 y : 0 <= y -> 2 ^ y mod 5 <> 0.
+Proof.
+  revert y. apply natlike_ind.
+  - vm_compute. discriminate.
+  - intros y Hy IH. rewrite Z.pow_succ_r by exact Hy. rewrite Z.mul_mod by lia.
+    pose proof (Z.mod_pos_bound (2 ^ y) 5 ltac:(lia)) as Hb.
+    set (r := 2 ^ y mod 5) in *. change (2 mod 5) with 2.
+    assert (r = 1 \/ r = 2 \/ r = 3 \/ r = 4) as [->|[->|[->| ->]]] by lia; vm_compute; discriminate.
+Qed.
+
+(* one tenth is not a binary fraction: whatever big.Float the parse returns for it is inexact *)
+Lemma tenth_not_dyadic b : ~ mval_eq (bfl_val b) (MFin 1 0 (-1)).
+Proof.
+  destruct b as [s m e p|s]; [|simpl; tauto]. cbn [bfl_val]. unfold mval_eq.
+  change (Z.min 0 (-1)) with (-1). change (0 - -1) with 1. change (-1 - -1) with 0.
+  change (10 ^ 1) with 10. change (10 ^ 0) with 1.
+  intro H.
+  assert (0 <= 0 - Z.min e 0) as Hy by lia.
+  apply (pow2_mod5 _ Hy). rewrite Z.mul_1_l, Z.mul_1_r in H. rewrite <- H.
+  replace (sgn s m * 2 ^ (e - Z.min e 0) * 10) with ((sgn s m * 2 ^ (e - Z.min e 0) * 2) * 5) by ring.
+  apply Z_mod_mult.
+Qed.
+
+(* a decimal 0.1 that is stored in a big.Float at all is stored inexactly (no error is raised,
+   with AllowLossyFloatConversion on or off: no code reads the knob) *)
+Lemma decimal_tenth_into_bigfloat ext_df ext_bdf b :
+  ext_df (Dec false 1 (-1)) = Some b ->
+  violates ext_df ext_bdf (SDec (Dec false 1 (-1))) TBigFloat.
+Proof.
+  intro Hb. exists (StBigFloat b). repeat split; try reflexivity.
+  - unfold conv. cbn [route build dfloat_to_bf]. rewrite Hb. reflexivity.
+  - cbn [stored_val src_val dec_val sgn]. apply tenth_not_dyadic.
+Qed.
+
+(* so the property as stated fails for the library's parse *)
 Lemma full_refuted ext_df ext_bdf :
+  ext_bdf (Dec false 1 19) = parse_int_dec (bigdec_prec (Dec false 1 19)) (Dec false 1 19) ->
   ~ (forall max2 max10 s t v,
        wf_src s = true -> in_scope s t = true ->
        conv ext_df ext_bdf max2 max10 s t = Stored v ->
        mval_eq (stored_val v) (src_val s)).
 Proof.
-  intro HF.
-  destruct (negint_sign_lost_uint ext_df ext_bdf) as [v [Hwf [Hsc [Hc Hn]]]].
+  intros Hp HF.
+  destruct (bigdecimal_rounded_into_uint ext_df ext_bdf Hp) as [v [Hwf [Hsc [Hc Hn]]]].
   exact (Hn (HF _ _ _ _ _ Hwf Hsc Hc)).
 Qed.
